@@ -268,6 +268,36 @@ def gen_case(rng, thorough, count):
     return {"k": k, "incap": incap, "outcap": outcap, "prefill": rng.choice(PREFILLS), "steps": steps, "tags": tags}
 
 
+def sweep_cases(rng, thorough, count):
+    """Exhaustive small scope: EVERY packetisation (composition of N into non-empty packets, 2^(N-1) of them) of N
+    frames for small windows; pixel data, shape and ring capacities are drawn per case."""
+    cases = []
+    ks = [2, 3, 4, 5] if thorough else [2, 3]
+    nmax = 9 if thorough else 7
+    for k in ks:
+        for n in range(0, nmax + 1):
+            types = sorted(INT_TYPES) if thorough else [rng.choice(sorted(INT_TYPES))]
+            for ty in types:
+                for mask in range(1 << max(0, n - 1)):
+                    c, w, h = rng.choice([(1, 1, 1), (1, 2, 1), (1, 2, 2), (3, 1, 1)])
+                    mode = rng.choice(["rand", "max", "min", "alt", "edge"])
+                    frames = [("f", ty, c, w, h, 1, i, gen_pixels(rng, ty, c * w * h, mode)) for i in range(n)]
+                    steps, cur = [], []
+                    for i, f in enumerate(frames):
+                        cur.append(f)
+                        if i < n - 1 and (mask >> i) & 1:
+                            steps.append(cur)
+                            cur = []
+                    steps.append(cur)
+                    fb = align8(HEADER + c * w * h * BPP[ty])
+                    maxstep = max(len(st) for st in steps) * fb
+                    ab = align8(HEADER + 4 * c * w * h)
+                    cases.append({"k": k, "incap": 2 * maxstep + 2 * fb + rng.randint(1, 2 * fb), "outcap": ab + 1 + rng.randint(0, 2 * ab),
+                                  "prefill": rng.choice(PREFILLS), "steps": steps, "tags": ["sweep"]})
+                    count("sweep:every packetisation of N<=%d frames" % nmax)
+    return cases
+
+
 # ----------------------------------------------------------------------------- running both sides
 def split_blocks(text):
     """Output of either side -> list of blocks (lists of lines), one per case (NEW .. END)."""
@@ -404,9 +434,14 @@ def in_domain(case):
     return True
 
 
-def oracle(case, ir):
+STATS = {"oracle:pixels compared with the exact rational mean": 0, "oracle:pixels outside k*max < 2^24 (skipped)": 0,
+         "oracle:windows checked": 0}
+
+
+def oracle(case, ir, stats=None):
     """Direct statement of C10 over the implementation's outputs.  Returns list of (key, message)."""
     v = []
+    stats = stats if stats is not None else {}
     if not in_domain(case):
         return v
     fr = frames_of(case)
@@ -432,7 +467,9 @@ def oracle(case, ir):
     npx = c * w * h
     inv = frac_of_bits(round32(Fraction(1, k)))
     pow2 = (k & (k - 1)) == 0
-    for i, o in enumerate(outs[:q]):
+    # frames left unread make the last emitted frame an un-normalised partial sum: a consequence already reported above
+    q_checked = (n - (ir["left"] or 0)) // k
+    for i, o in enumerate(outs[:q_checked]):
         win = fr[i * k:(i + 1) * k]
         if int(o["id"]) != win[0][6]:
             v.append(("frame-id", "output %d has frame_id %s, the first frame of window %d has %d" % (i, o["id"], i, win[0][6])))
@@ -448,6 +485,7 @@ def oracle(case, ir):
         if len(px) != npx:
             v.append(("frame-shape", "output %d carries %d pixels, expected %d" % (i, len(px), npx)))
             continue
+        stats["oracle:windows checked"] = stats.get("oracle:windows checked", 0) + 1
         cols = [decode(f[1], f[7]) for f in win]
         for j in range(npx):
             col = [cc[j] for cc in cols]
@@ -458,7 +496,9 @@ def oracle(case, ir):
                 if abs(s) > (1 << 24):
                     exact_domain = False
             if not exact_domain:
+                stats["oracle:pixels outside k*max < 2^24 (skipped)"] = stats.get("oracle:pixels outside k*max < 2^24 (skipped)", 0) + 1
                 continue            # k*maxval >= 2^24: outside C10_sum_exact (partial); the differential still compares bits
+            stats["oracle:pixels compared with the exact rational mean"] = stats.get("oracle:pixels compared with the exact rational mean", 0) + 1
             want = round32(s * inv)
             got = px[j]
             mean = Fraction(s, k)
@@ -571,10 +611,27 @@ def fold(ctx, impl, results, origin):
         nontriv = dom and len(fr) >= k and len(ir["slices"]) >= 2
         ctx.case(sig, nontrivial=nontriv)
         ctx.count("domain:in" if dom else "domain:out (differential only)")
-        if len(ir["slices"]) > len(case["steps"]):
-            ctx.count("impl:extra reads (lap of filter.in inside a packet / flush loop)")
-        if any(n and j == len(ir["slices"]) - 1 for j, (n, _, _) in enumerate(ir["slices"])):
-            pass
+        # where did the laps of the two rings fall?
+        sb, acc = [], 0
+        for st in case["steps"]:
+            a0 = acc
+            acc += sum(1 for op in st if op[0] == "f")
+            sb.append((a0, acc))
+        cuts, acc = set(), 0
+        for n_, _, _ in ir["slices"]:
+            acc += n_
+            cuts.add(acc)
+        split = [j for j, (a0, b0) in enumerate(sb) if any(a0 < x < b0 for x in cuts)]
+        if split:
+            ctx.count("rings:a packet crossed a lap of filter.in (read in two parts)")
+            if split[-1] == len(sb) - 1 or (ir["left"] and ir["ecode"] == 0):
+                ctx.count("rings:the LAST packet crossed a lap of filter.in (flush needs two reads)")
+        if fr:
+            npx0 = fr[0][2] * fr[0][3] * fr[0][4]
+            if len(ir["outs"]) * align8(HEADER + 4 * npx0) > case["outcap"]:
+                ctx.count("rings:output ring lapped (accumulator mapped on its own old output)")
+        if case["prefill"] != 0:
+            ctx.count("rings:non-zero prefill")
         if ir["ecode"] == 1:
             ctx.count("impl:error-exit")
         if not ir["sane"]:
@@ -583,7 +640,11 @@ def fold(ctx, impl, results, origin):
             ctx.broken_tie("the slices read by process_data do not hold the written frames in order (ring problem, C01/C05)",
                            {"case": case_lines(case), "slices": ir["slices"]})
         # property oracle on the implementation's own output
-        for key, msg in oracle(case, ir):
+        st = {}
+        viols = oracle(case, ir, st)
+        for kx, nx in st.items():
+            ctx.count(kx, nx)
+        for key, msg in viols:
             size = sum(len(l) for l in case_lines(case))
             slot = ctx.extra.setdefault("_found", {}).setdefault(key, [0, None, None, None])
             slot[0] += 1
@@ -630,7 +691,8 @@ def run(ctx):
                 "(random / all max / all min / small / alternating extremes / edges / full 16-bit container for u10-u14), a packetisation "
                 "(one packet, one frame per packet, random cuts with or without empty packets), ring capacities of a few frames, a non-zero "
                 "prefill byte for both rings; 19% of the cases leave the property's domain on purpose (shape change, f32/unknown type, "
-                "type switch, reset signal, accumulator larger than the output ring) and are compared with the model only. "
+                "type switch, reset signal, accumulator larger than the output ring) and are compared with the model only; "
+                "plus an exhaustive sweep: every packetisation (2^(N-1) compositions) of N <= 7 (quick) / 9 (thorough) frames for k = 2,3 (,4,5). "
                 "The real video_filter_thread runs them; non-trivial = in the domain, at least one complete window and at least two "
                 "process_data calls; distinct = distinct case text")
     ctx.assumptions = [
@@ -670,10 +732,11 @@ def run(ctx):
     if corpus:
         fold(ctx, impl, run_batch(orac, impl, corpus), "corpus")
         ctx.count("corpus cases", len(corpus))
-    ncases = 24000 if thorough else 2400
-    cases = [gen_case(ctx.rng, thorough, count) for _ in range(ncases)]
-    for c in cases[:3]:
-        ctx.sample({"case": case_lines(c)[:12], "tags": c["tags"]})
+    ncases = 30000 if thorough else 6000
+    cases = sweep_cases(ctx.rng, thorough, count)
+    cases += [gen_case(ctx.rng, thorough, count) for _ in range(ncases)]
+    for c in cases[-3:]:
+        ctx.sample({"case": [l[:160] for l in case_lines(c)[:12]], "tags": c["tags"]})
     shards = [s for s in vlib.shard(cases, vlib.NPROC * (4 if thorough else 1)) if s]
     results = vlib.parallel(lambda sh: run_batch(orac, impl, sh), shards)
     for rs in results:
